@@ -58,7 +58,8 @@ LSets == [ L1 |-> [a |-> "x"],
            L2 |-> [a |-> "y", b |-> "x"],
            L3 |-> [b |-> "y"],
            L4 |-> [a |-> "xy", c |-> "x"],
-           L5 |-> [a |-> "x", b |-> "y"] ]
+           L5 |-> [a |-> "x", b |-> "y"],
+           L6 |-> [a |-> "y"] ]                 \* lacks b: an empty-valued equality matcher on b holds
 LSetNames == DOMAIN LSets
 
 (* The library of matcher sets used by silences.                           *)
@@ -68,6 +69,10 @@ MSets == [ M1 |-> << <<Eq("a", "x")>> >>,
            M4 |-> << <<Eq("a", "x")>>, <<Eq("b", "y")>> >>,
            M5 |-> << <<Nre("c", "x.*"), Re("a", ".+")>> >>,
            M6 |-> << <<Eq("b", ""), Eq("a", "y")>> >>,
+           \* operator twins: same names and patterns as M2 / M3, another operator (an edit from one to
+           \* the other rewrites history like any other change of matchers)
+           M7 |-> << <<Eq("a", "x|y")>> >>,
+           M8 |-> << <<Eq("a", "x"), Eq("b", "x")>> >>,
            MBadEmpty |-> << <<Eq("a", "")>> >>,
            MBadRe    |-> << <<Re("a", ".*"), Re("b", "y?")>> >>,
            MNone     |-> << >> ]
